@@ -6,11 +6,11 @@
      C  line ends: _clean_line gives the same line for LF and CR LF (C11_eol)
      D  is_comment against rule S5
      E  words
-     F  the reader as a transducer over line classes; simulation by rd_loop / rd_loop_fix
+     F  the reader as a transducer over line classes; simulation by rd_loop
      G  the class of a plain line
      H  layout steps on the data part and their soundness
      I  front matter, whole files, the closure theorem
-     J  the current code: agreement with the repaired reader on tidy files, refutations
+     J  is_comment is not rule S5; examples (the layouts that the reader before commit 2db4963 read differently)
      K  obligations on the generated lexer / grammar facts (Gen/LexerFlags.v)            *)
 From Coq Require Import List String Ascii Arith Bool Lia.
 From MPV Require Import Model.Wire Model.Lines Gen.LexerFlags.
@@ -736,8 +736,7 @@ Record lk := mkLk {
   k_com : bool;              (* is_comment *)
   k_start : bool;            (* a non-blank in columns 1-5 *)
   k_hash : bool;             (* '#' in columns 1-5 of a line that is not a comment *)
-  k_ampc : bool;             (* the line (cut at the limit) ends in " &" LF *)
-  k_ampf : bool;             (* its data, before '$' and without trailing blanks, ends in " &" *)
+  k_ampf : bool;             (* no '$' on the line and, trailing blanks dropped, it ends in " &" *)
   k_words : list string      (* line_words of the stored line *)
 }.
 
@@ -747,7 +746,7 @@ Definition line_class (w : nat) (l : string) : lk :=
   let line' := takeS w line in
   mkLk (all_space line) c (negb (all_space (takeS BLANK_SPACE_CONTINUE line)))
        (andb (contains "#"%char (takeS BLANK_SPACE_CONTINUE line)) (negb c))
-       (amp_nl line') (amp_data line') (line_words (rstrip line')).
+       (amp_data line') (line_words (rstrip line')).
 
 Record ast := mkA { a_bc : nat; a_bt : nat; a_cont : bool; a_hnc : bool; a_ne : bool; a_acc : list string;
                     a_top : bool;     (* the top-level file (read_data's recursion argument is False) *)
@@ -757,8 +756,7 @@ Definition out := (nat * list string)%type.
 
 Definition aflush (bt : nat) (ne : bool) (acc : list string) : list out := if ne then [(bt, acc)] else [].
 
-(* fx = false: the current code; fx = true: with repair C11-1 *)
-Definition astep (fx : bool) (k : lk) (s : ast) : list out * option ast :=
+Definition astep (k : lk) (s : ast) : list out * option ast :=
   if a_done s then ([], Some s) else
   if k_blank k then
     let bc' := S (a_bc s) in
@@ -771,87 +769,87 @@ Definition astep (fx : bool) (k : lk) (s : ast) : list out * option ast :=
     let acc1 := if newinp then [] else a_acc s in
     if k_hash k then (pre, None)
     else (pre, Some (mkA (a_bc s) (a_bt s)
-                         (if fx then (if andb (k_com k) (k_start k) then a_cont s else k_ampf k) else k_ampc k)
+                         (if andb (k_com k) (k_start k) then a_cont s else k_ampf k)
                          (orb (a_hnc s) (negb (k_com k))) true (acc1 ++ k_words k)%list
                          (a_top s) false)).
 
-Fixpoint arun (fx : bool) (ks : list lk) (s : ast) : list out * option rd_err :=
+Fixpoint arun (ks : list lk) (s : ast) : list out * option rd_err :=
   match ks with
   | [] => (aflush (a_bt s) (a_ne s) (a_acc s), None)
   | k :: r =>
-      match astep fx k s with
+      match astep k s with
       | (o, None) => (o, Some UnsupportedFeature)
-      | (o, Some s1) => let (o2, e) := arun fx r s1 in ((o ++ o2)%list, e)
+      | (o, Some s1) => let (o2, e) := arun r s1 in ((o ++ o2)%list, e)
       end
   end.
 
 (* a segment of lines: output and the state after it (None: the reader stopped with the error) *)
-Fixpoint asteps (fx : bool) (ks : list lk) (s : ast) : list out * option ast :=
+Fixpoint asteps (ks : list lk) (s : ast) : list out * option ast :=
   match ks with
   | [] => ([], Some s)
   | k :: r =>
-      match astep fx k s with
+      match astep k s with
       | (o, None) => (o, None)
-      | (o, Some s1) => let (o2, s2) := asteps fx r s1 in ((o ++ o2)%list, s2)
+      | (o, Some s1) => let (o2, s2) := asteps r s1 in ((o ++ o2)%list, s2)
       end
   end.
 
-Lemma arun_app : forall fx p q s,
-  arun fx (p ++ q)%list s =
-  match asteps fx p s with
+Lemma arun_app : forall p q s,
+  arun (p ++ q)%list s =
+  match asteps p s with
   | (o, None) => (o, Some UnsupportedFeature)
-  | (o, Some s1) => let (o2, e) := arun fx q s1 in ((o ++ o2)%list, e)
+  | (o, Some s1) => let (o2, e) := arun q s1 in ((o ++ o2)%list, e)
   end.
 Proof.
   induction p; intros q s.
-  - simpl. destruct (arun fx q s). reflexivity.
-  - simpl. destruct (astep fx a s) as [o [s1|]]; auto.
-    rewrite IHp. destruct (asteps fx p s1) as [o2 [s2|]].
-    + destruct (arun fx q s2). rewrite app_assoc. reflexivity.
+  - simpl. destruct (arun q s). reflexivity.
+  - simpl. destruct (astep a s) as [o [s1|]]; auto.
+    rewrite IHp. destruct (asteps p s1) as [o2 [s2|]].
+    + destruct (arun q s2). rewrite app_assoc. reflexivity.
     + reflexivity.
 Qed.
 
 (* every reachable state: an empty accumulator has seen no data line *)
 Definition inv (s : ast) : Prop := a_ne s = false -> a_hnc s = false.
 
-Lemma astep_inv : forall fx k s o s1, inv s -> astep fx k s = (o, Some s1) -> inv s1.
+Lemma astep_inv : forall k s o s1, inv s -> astep k s = (o, Some s1) -> inv s1.
 Proof.
-  intros fx k s o s1 Hi H. unfold astep in H.
+  intros k s o s1 Hi H. unfold astep in H.
   destruct (a_done s); [inversion H; subst; auto|].
   destruct (k_blank k).
   - inversion H. subst. intro. reflexivity.
   - destruct (k_hash k); inversion H. subst. intro Hc. discriminate Hc.
 Qed.
 
-Lemma asteps_inv : forall fx p s o s1, inv s -> asteps fx p s = (o, Some s1) -> inv s1.
+Lemma asteps_inv : forall p s o s1, inv s -> asteps p s = (o, Some s1) -> inv s1.
 Proof.
   induction p; intros s o s1 Hi H; simpl in H.
   - inversion H. subst. auto.
-  - destruct (astep fx a s) as [o1 [s2|]] eqn:E; try discriminate.
-    destruct (asteps fx p s2) as [o2 s3] eqn:E2. inversion H. subst.
+  - destruct (astep a s) as [o1 [s2|]] eqn:E; try discriminate.
+    destruct (asteps p s2) as [o2 s3] eqn:E2. inversion H. subst.
     eapply IHp; [|eauto]. eapply astep_inv; eauto.
 Qed.
 
 (* replacing a segment by one that behaves the same from every reachable state *)
-Lemma seg_replace : forall fx pre p p' post s,
+Lemma seg_replace : forall pre p p' post s,
   inv s ->
-  (forall s1, inv s1 -> asteps fx p s1 = asteps fx p' s1) ->
-  arun fx (pre ++ p ++ post)%list s = arun fx (pre ++ p' ++ post)%list s.
+  (forall s1, inv s1 -> asteps p s1 = asteps p' s1) ->
+  arun (pre ++ p ++ post)%list s = arun (pre ++ p' ++ post)%list s.
 Proof.
-  intros fx pre p p' post s Hi H.
-  rewrite !(arun_app fx pre). destruct (asteps fx pre s) as [o [s1|]] eqn:E; auto.
-  rewrite !(arun_app fx _ post). rewrite H; auto.
+  intros pre p p' post s Hi H.
+  rewrite !(arun_app pre). destruct (asteps pre s) as [o [s1|]] eqn:E; auto.
+  rewrite !(arun_app _ post). rewrite H; auto.
   eapply asteps_inv; eauto.
 Qed.
 
-Lemma arun_done : forall fx ks s, a_done s = true ->
-  arun fx ks s = (aflush (a_bt s) (a_ne s) (a_acc s), None).
+Lemma arun_done : forall ks s, a_done s = true ->
+  arun ks s = (aflush (a_bt s) (a_ne s) (a_acc s), None).
 Proof.
   induction ks; intros s H; auto.
   cbn [arun]. unfold astep. rewrite H. rewrite IHks by auto. reflexivity.
 Qed.
 
-(* ---- rd_loop and rd_loop_fix are this transducer *)
+(* ---- rd_loop and rd_loop are this transducer *)
 Lemma nonempty_app1 : forall (A : Type) (l : list A) x, nonempty (l ++ [x])%list = true.
 Proof. destruct l; reflexivity. Qed.
 
@@ -866,12 +864,12 @@ Definition lift (r : list input * option rd_err) : list out * option rd_err := (
 
 Lemma rd_loop_sim : forall w rc ls lineno bc bt cont hnc raw,
   lift (rd_loop w rc ls lineno bc bt cont hnc raw)
-  = arun false (map (line_class w) ls)
+  = arun (map (line_class w) ls)
          (mkA bc bt cont hnc (nonempty raw) (flat_map line_words raw) (negb rc) false).
 Proof.
   induction ls; intros lineno bc bt cont hnc raw.
   - unfold lift. simpl. rewrite logical_flush. reflexivity.
-  - cbn [map arun rd_loop]. unfold astep. cbn [line_class k_blank k_com k_start k_hash k_ampc k_ampf k_words
+  - cbn [map arun rd_loop]. unfold astep. cbn [line_class k_blank k_com k_start k_hash k_ampf k_words
       a_bc a_bt a_cont a_hnc a_ne a_acc a_top a_done].
     destruct (all_space (expandtabs TABSIZE a)) eqn:Eb.
     + destruct (andb (Nat.leb 3 (S bc)) (negb rc)) eqn:Estop.
@@ -888,48 +886,10 @@ Proof.
       destruct (andb (contains "#"%char (takeS BLANK_SPACE_CONTINUE (expandtabs TABSIZE a))) (negb c)) eqn:Eh.
       * unfold lift. cbn [fst snd]. destruct newinp; cbn [logical map]; rewrite ?logical_flush; reflexivity.
       * set (line' := takeS w (expandtabs TABSIZE a)).
-        specialize (IHls (S lineno) bc bt (amp_nl line') (orb hnc (negb c))
-                         ((if newinp then [] else raw) ++ [rstrip line'])%list).
-        unfold amp_nl in IHls. fold line' in IHls.
-        destruct (rd_loop w rc ls (S lineno) bc bt
-                    (ends_with (String sp (String "&"%char (String nl ""))) line') (orb hnc (negb c))
-                    ((if newinp then [] else raw) ++ [rstrip line'])%list) as [o e] eqn:E.
-        unfold lift in *. cbn [fst snd] in *.
-        rewrite nonempty_app1, flat_map_app in IHls. cbn [flat_map] in IHls. rewrite app_nil_r in IHls.
-        assert (flat_map line_words (if newinp then [] else raw)
-                = if newinp then [] else flat_map line_words raw) as Ef by (destruct newinp; reflexivity).
-        rewrite Ef in IHls. unfold amp_nl. rewrite <- IHls.
-        rewrite logical_app. destruct newinp; cbn [logical map]; rewrite ?logical_flush; reflexivity.
-Qed.
-
-Lemma rd_loop_fix_sim : forall w rc ls lineno bc bt cont hnc raw,
-  lift (rd_loop_fix w rc ls lineno bc bt cont hnc raw)
-  = arun true (map (line_class w) ls)
-         (mkA bc bt cont hnc (nonempty raw) (flat_map line_words raw) (negb rc) false).
-Proof.
-  induction ls; intros lineno bc bt cont hnc raw.
-  - unfold lift. simpl. rewrite logical_flush. reflexivity.
-  - cbn [map arun rd_loop_fix]. unfold astep. cbn [line_class k_blank k_com k_start k_hash k_ampc k_ampf k_words
-      a_bc a_bt a_cont a_hnc a_ne a_acc a_top a_done].
-    destruct (all_space (expandtabs TABSIZE a)) eqn:Eb.
-    + destruct (andb (Nat.leb 3 (S bc)) (negb rc)) eqn:Estop.
-      { rewrite arun_done by reflexivity. cbn [a_bt a_ne a_acc aflush]. unfold lift. cbn [fst snd].
-        rewrite logical_flush, app_nil_r. reflexivity. }
-      specialize (IHls (S lineno) (S bc) (if Nat.ltb (S bc) 3 then S bc else bt) cont false []).
-      cbn [nonempty flat_map] in IHls.
-      destruct (rd_loop_fix w rc ls (S lineno) (S bc) (if Nat.ltb (S bc) 3 then S bc else bt) cont false []) as [o e] eqn:E.
-      unfold lift in *. cbn [fst snd] in *. rewrite <- IHls.
-      rewrite logical_app, logical_flush. reflexivity.
-    + set (c := is_comment (expandtabs TABSIZE a)).
-      set (newinp := andb (negb (all_space (takeS BLANK_SPACE_CONTINUE (expandtabs TABSIZE a))))
-                       (andb (negb cont) (andb (negb c) (andb hnc (nonempty raw))))).
-      destruct (andb (contains "#"%char (takeS BLANK_SPACE_CONTINUE (expandtabs TABSIZE a))) (negb c)) eqn:Eh.
-      * unfold lift. cbn [fst snd]. destruct newinp; cbn [logical map]; rewrite ?logical_flush; reflexivity.
-      * set (line' := takeS w (expandtabs TABSIZE a)).
         set (st := negb (all_space (takeS BLANK_SPACE_CONTINUE (expandtabs TABSIZE a)))).
         specialize (IHls (S lineno) bc bt (if andb c st then cont else amp_data line') (orb hnc (negb c))
                          ((if newinp then [] else raw) ++ [rstrip line'])%list).
-        destruct (rd_loop_fix w rc ls (S lineno) bc bt (if andb c st then cont else amp_data line') (orb hnc (negb c))
+        destruct (rd_loop w rc ls (S lineno) bc bt (if andb c st then cont else amp_data line') (orb hnc (negb c))
                     ((if newinp then [] else raw) ++ [rstrip line'])%list) as [o e] eqn:E.
         unfold lift in *. cbn [fst snd] in *.
         rewrite nonempty_app1, flat_map_app in IHls. cbn [flat_map] in IHls. rewrite app_nil_r in IHls.
@@ -946,7 +906,7 @@ Definition pk (x : string) : lk :=
   let c := orb (spec_comment x) (late_c x) in
   mkLk (all_blank x) c (negb (all_blank (takeS 5 x)))
        (andb (contains "#"%char (takeS 5 x)) (negb c))
-       (ends_with amp2 x) (andb (negb (contains "$"%char x)) (ends_with amp2 (rstrip_blanks x)))
+       (andb (negb (contains "$"%char x)) (ends_with amp2 (rstrip_blanks x)))
        (if spec_comment x then [] else filter not_amp (words (spec_data x))).
 
 (* the class of a raw line (as iterated from the file) *)
@@ -958,22 +918,38 @@ Proof.
   rewrite spec_expand_plain; auto.
 Qed.
 
-Lemma lc_plain : forall w x e, all_plain x = true -> eol e -> S (String.length x) <= w ->
+Lemma takeS_app_exact : forall x s, takeS (String.length x) (x ++ s) = x.
+Proof. induction x; intros s; simpl; [destruct s; reflexivity|]. rewrite IHx. reflexivity. Qed.
+
+Lemma contains_dollar_nl : forall x, contains "$"%char (x ++ lf) = contains "$"%char x.
+Proof. intros. unfold lf. rewrite contains_app. cbn [contains]. rewrite orb_false_r. reflexivity. Qed.
+
+(* a line of exactly w columns loses its LF when it is cut at w characters; nothing else changes *)
+Lemma cut_plain : forall w x, all_plain x = true -> String.length x <= w ->
+  let l' := takeS w (x ++ lf) in
+  amp_data l' = andb (negb (contains "$"%char x)) (ends_with amp2 (rstrip_blanks x)) /\
+  rstrip l' = rstrip_blanks x.
+Proof.
+  intros w x Hx Hw. cbv zeta.
+  destruct (Nat.eq_dec (String.length x) w) as [E|E].
+  - subst w. rewrite takeS_app_exact. unfold amp_data. fold amp2. rewrite rstrip_plain by auto. auto.
+  - rewrite (takeS_all (x ++ lf) w) by (rewrite slen_app; unfold lf; cbn [String.length]; lia).
+    unfold amp_data. fold amp2. rewrite contains_dollar_nl. unfold lf. rewrite rstrip_plain_nl by auto. auto.
+Qed.
+
+Lemma lc_plain : forall w x e, all_plain x = true -> eol e -> String.length x <= w ->
   lc w (x ++ e) = pk x.
 Proof.
   intros w x e Hx He Hw. unfold lc. rewrite clean_line_plain by auto.
   unfold line_class. rewrite expandtabs_plain by auto.
-  rewrite (takeS_all (x ++ lf) w) by (rewrite slen_app; unfold lf; cbn [String.length]; lia).
+  destruct (cut_plain w x Hx Hw) as [Ea Er]. cbv zeta in Ea, Er. rewrite Ea, Er.
   change BLANK_SPACE_CONTINUE with 5.
   unfold pk. f_equal.
   - rewrite all_space_app. change (all_space lf) with true. rewrite andb_true_r. apply all_space_plain; auto.
   - apply is_comment_S5; auto.
   - unfold lf. rewrite all_space_takeS_nl by auto. reflexivity.
   - rewrite is_comment_S5 by auto. unfold lf. rewrite contains_takeS_app by reflexivity. reflexivity.
-  - unfold amp_nl, lf. apply ends_with_nl.
-  - unfold amp_data. fold amp2. unfold lf. rewrite contains_app. cbn [contains]. rewrite orb_false_r.
-    rewrite rstrip_plain_nl by auto. reflexivity.
-  - unfold lf. rewrite rstrip_plain_nl by auto. unfold line_words, spec_comment.
+  - unfold line_words, spec_comment.
     rewrite spec_comment_from_rstrip, words_spec_data_rstrip. reflexivity.
 Qed.
 
@@ -1089,7 +1065,7 @@ Lemma seg_amp : forall ka ka' kb kb',
   k_blank kb = false -> k_com kb = false -> k_hash kb = false -> k_start kb = false ->
   k_blank kb' = false -> k_com kb' = false -> k_hash kb' = false ->
   k_words kb' = k_words kb -> k_ampf kb' = k_ampf kb ->
-  forall s, asteps true [ka; kb] s = asteps true [ka'; kb'] s.
+  forall s, asteps [ka; kb] s = asteps [ka'; kb'] s.
 Proof.
   intros ka ka' kb kb' A1 A2 A3 B1 B2 B3 B4 B5 B6 C1 C2 C3 C4 D1 D2 D3 D4 D5 [bc bt cont hnc ne acc top dn].
   destruct dn; [reflexivity|].
@@ -1099,26 +1075,26 @@ Proof.
   destruct (k_start ka), cont, hnc, ne; cbn [andb orb negb]; reflexivity.
 Qed.
 
-(* two lines of the same class except for what the current code's '&' test sees *)
+(* two lines of the same class *)
 Definition same_fix (k k' : lk) : Prop :=
   k_blank k' = k_blank k /\ k_com k' = k_com k /\ k_start k' = k_start k /\ k_hash k' = k_hash k /\
   k_ampf k' = k_ampf k /\ k_words k' = k_words k.
 
-Lemma seg_same : forall k k', same_fix k k' -> forall s, asteps true [k] s = asteps true [k'] s.
+Lemma seg_same : forall k k', same_fix k k' -> forall s, asteps [k] s = asteps [k'] s.
 Proof.
   intros k k' (H1 & H2 & H3 & H4 & H5 & H6) s.
   unfold asteps, astep. rewrite H1, H2, H3, H4, H5, H6. reflexivity.
 Qed.
 
 Lemma seg_blank : forall k k', k_blank k = true -> k_blank k' = true ->
-  forall s, asteps true [k] s = asteps true [k'] s.
+  forall s, asteps [k] s = asteps [k'] s.
 Proof. intros k k' H1 H2 s. unfold asteps, astep. rewrite H1, H2. reflexivity. Qed.
 
 Definition comment_class (k : lk) : Prop :=
   k_blank k = false /\ k_com k = true /\ k_hash k = false /\ k_words k = [] /\ k_start k = true.
 
 Lemma step_comment_noop : forall kc s, comment_class kc -> a_done s = true \/ a_ne s = true ->
-  astep true kc s = ([], Some s).
+  astep kc s = ([], Some s).
 Proof.
   intros kc [bc bt cont hnc ne acc top dn] (H1 & H2 & H3 & H4 & H5) Hne. cbn [a_ne a_done] in Hne.
   destruct dn; [reflexivity|]. destruct Hne as [Hne|Hne]; [discriminate|]. subst ne.
@@ -1126,39 +1102,39 @@ Proof.
   cbn [negb andb]. rewrite !andb_false_r. rewrite orb_false_r, app_nil_r. reflexivity.
 Qed.
 
-Lemma step_nonblank_ne : forall fx k s o s1, k_blank k = false -> astep fx k s = (o, Some s1) ->
+Lemma step_nonblank_ne : forall k s o s1, k_blank k = false -> astep k s = (o, Some s1) ->
   a_done s1 = true \/ a_ne s1 = true.
 Proof.
-  intros fx k s o s1 Hb H. unfold astep in H. destruct (a_done s) eqn:Ed.
+  intros k s o s1 Hb H. unfold astep in H. destruct (a_done s) eqn:Ed.
   - inversion H. subst. auto.
   - rewrite Hb in H. destruct (k_hash k); inversion H. auto.
 Qed.
 
 Lemma seg_comment_text : forall kc kc', comment_class kc -> comment_class kc' ->
-  forall s, asteps true [kc] s = asteps true [kc'] s.
+  forall s, asteps [kc] s = asteps [kc'] s.
 Proof.
   intros kc kc' (H1 & H2 & H3 & H4 & H5) (G1 & G2 & G3 & G4 & G5) s.
   unfold asteps, astep. rewrite H1, H2, H3, H4, H5, G1, G2, G3, G4, G5. cbn [negb andb]. reflexivity.
 Qed.
 
 Lemma seg_comment_after : forall kx kc, k_blank kx = false -> comment_class kc ->
-  forall s, asteps true [kx; kc] s = asteps true [kx] s.
+  forall s, asteps [kx; kc] s = asteps [kx] s.
 Proof.
   intros kx kc Hx Hc s. cbn [asteps].
-  destruct (astep true kx s) as [o [s1|]] eqn:E; auto.
+  destruct (astep kx s) as [o [s1|]] eqn:E; auto.
   rewrite step_comment_noop; auto.
   eapply step_nonblank_ne; eauto.
 Qed.
 
 Lemma seg_comment_before : forall ky kc, k_blank ky = false -> comment_class kc ->
-  forall s, inv s -> asteps true [kc; ky] s = asteps true [ky] s.
+  forall s, inv s -> asteps [kc; ky] s = asteps [ky] s.
 Proof.
   intros ky kc Hy Hc s Hi. destruct (a_done s) eqn:Hdn.
   { cbn [asteps]. rewrite step_comment_noop by auto. cbn [app].
-    destruct (astep true ky s) as [o [s1|]]; reflexivity. }
+    destruct (astep ky s) as [o [s1|]]; reflexivity. }
   destruct (a_ne s) eqn:Hne.
   - cbn [asteps]. rewrite step_comment_noop by auto. cbn [app].
-    destruct (astep true ky s) as [o [s1|]]; reflexivity.
+    destruct (astep ky s) as [o [s1|]]; reflexivity.
   - specialize (Hi Hne). destruct s as [bc bt cont hnc ne acc top dn]. cbn [a_ne a_hnc a_done] in *. subst ne hnc dn.
     destruct Hc as (H1 & H2 & H3 & H4 & H5).
     unfold asteps, astep. cbn [a_bc a_bt a_cont a_hnc a_ne a_acc a_top a_done].
@@ -1333,15 +1309,22 @@ Inductive data_step : list string -> list string -> Prop :=
 
 (* ---- soundness *)
 Definition lim (w : nat) (l : string) : bool :=
-  Nat.leb (String.length (expandtabs TABSIZE (clean_line l))) w.
+  Nat.leb (String.length (chomp (expandtabs TABSIZE (clean_line l)))) w.
+
+Lemma chomp_plain : forall x, all_plain x = true -> chomp (x ++ lf) = x.
+Proof.
+  induction x; simpl; intros H; auto.
+  apply andb_true_iff in H. destruct H as [Ha Hs].
+  destruct (plain_facts _ Ha) as (_ & _ & _ & Hn & Hc). rewrite Hn, Hc. simpl. rewrite IHx; auto.
+Qed.
 
 Lemma within_limit_forallb : forall w f, within_limit w f = forallb (lim w) f.
 Proof. reflexivity. Qed.
 
-Lemma lim_plain : forall w x e, all_plain x = true -> eol e -> lim w (x ++ e) = true -> S (String.length x) <= w.
+Lemma lim_plain : forall w x e, all_plain x = true -> eol e -> lim w (x ++ e) = true -> String.length x <= w.
 Proof.
-  intros w x e Hx He H. unfold lim in H. rewrite clean_line_plain, expandtabs_plain in H by auto.
-  apply Nat.leb_le in H. rewrite slen_app in H. unfold lf in H. cbn [String.length] in H. lia.
+  intros w x e Hx He H. unfold lim in H. rewrite clean_line_plain, expandtabs_plain, chomp_plain in H by auto.
+  apply Nat.leb_le in H. exact H.
 Qed.
 
 Lemma within_mid : forall w pre p post, within_limit w (pre ++ p ++ post) = true -> forallb (lim w) p = true.
@@ -1382,7 +1365,7 @@ Qed.
 
 Theorem data_step_sound : forall w d d', data_step d d' ->
   within_limit w d = true -> within_limit w d' = true ->
-  forall s, inv s -> arun true (map (lc w) d) s = arun true (map (lc w) d') s.
+  forall s, inv s -> arun (map (lc w) d) s = arun (map (lc w) d') s.
 Proof.
   intros w d d' Hstep Hl Hl' s Hi.
   destruct Hstep; rewrite !map_app; apply seg_replace; auto; intros s1 Hi1; cbn [map];
@@ -1483,21 +1466,10 @@ Definition s0 : ast := mkA 0 0 false false false [] true false.
 Lemma inv_s0 : inv s0.
 Proof. intro. reflexivity. Qed.
 
-Lemma read_lines_fix_run : forall w f,
-  read_lines_fix w f =
-  let fm := read_front_matters (map clean_line f) in
-  let r := arun true (map (line_class w) (f_rest fm)) s0 in (f_title fm, fst r, snd r).
-Proof.
-  intros w f. unfold read_lines_fix, read_data_fix_from. cbv zeta.
-  pose proof (rd_loop_fix_sim w false (f_rest (read_front_matters (map clean_line f))) 0 0 0 false false []) as H.
-  cbn [nonempty flat_map negb] in H. fold s0 in H. rewrite <- H.
-  destruct (rd_loop_fix w false _ 0 0 0 false false []) as [ins e]. reflexivity.
-Qed.
-
 Lemma read_lines_run : forall w f,
   read_lines w f =
   let fm := read_front_matters (map clean_line f) in
-  let r := arun false (map (line_class w) (f_rest fm)) s0 in (f_title fm, fst r, snd r).
+  let r := arun (map (line_class w) (f_rest fm)) s0 in (f_title fm, fst r, snd r).
 Proof.
   intros w f. unfold read_lines, read_data_from. cbv zeta.
   pose proof (rd_loop_sim w false (f_rest (read_front_matters (map clean_line f))) 0 0 0 false false []) as H.
@@ -1505,10 +1477,10 @@ Proof.
   destruct (rd_loop w false _ 0 0 0 false false []) as [ins e]. reflexivity.
 Qed.
 
-Lemma read_lines_fix_front : forall w fr ti d, front fr ti ->
-  read_lines_fix w (fr ++ d)%list = (ti, fst (arun true (map (lc w) d) s0), snd (arun true (map (lc w) d) s0)).
+Lemma read_lines_front : forall w fr ti d, front fr ti ->
+  read_lines w (fr ++ d)%list = (ti, fst (arun (map (lc w) d) s0), snd (arun (map (lc w) d) s0)).
 Proof.
-  intros w fr ti d H. rewrite read_lines_fix_run. cbv zeta.
+  intros w fr ti d H. rewrite read_lines_run. cbv zeta.
   destruct (front_read fr ti d H) as [E1 E2]. rewrite E1, E2, map_map. reflexivity.
 Qed.
 
@@ -1528,12 +1500,12 @@ Qed.
 
 Theorem layout_step_sound : forall w f f', layout_step f f' ->
   within_limit w f = true -> within_limit w f' = true ->
-  read_lines_fix w f = read_lines_fix w f'.
+  read_lines w f = read_lines w f'.
 Proof.
   intros w f f' H Hl Hl'. destruct H.
-  - rewrite !(read_lines_fix_front w fr ti) by auto.
+  - rewrite !(read_lines_front w fr ti) by auto.
     rewrite (data_step_sound w d d' H0); eauto using within_limit_app, inv_s0.
-  - rewrite (read_lines_fix_front w fr ti), (read_lines_fix_front w fr' ti) by auto. reflexivity.
+  - rewrite (read_lines_front w fr ti), (read_lines_front w fr' ti) by auto. reflexivity.
 Qed.
 
 (* layouts reachable from each other by elementary re-layouts, every file on the way within the line limit *)
@@ -1544,50 +1516,15 @@ Inductive layout_equiv (w : nat) : list string -> list string -> Prop :=
 | LE_sym : forall f f', layout_equiv w f f' -> layout_equiv w f' f
 | LE_trans : forall f g h, layout_equiv w f g -> layout_equiv w g h -> layout_equiv w f h.
 
-Theorem layout_equiv_sound : forall w f f', layout_equiv w f f' -> read_lines_fix w f = read_lines_fix w f'.
+Theorem layout_equiv_sound : forall w f f', layout_equiv w f f' -> read_lines w f = read_lines w f'.
 Proof.
   intros w f f' H. induction H; auto.
   - apply layout_step_sound; auto.
   - congruence.
 Qed.
 
-(* ================================================================== J  the current code *)
-Lemma tidy_agree : forall w ls cont bc bt hnc ne acc top dn,
-  amp_tidy_from w cont ls = true ->
-  arun false (map (line_class w) ls) (mkA bc bt cont hnc ne acc top dn)
-  = arun true (map (line_class w) ls) (mkA bc bt cont hnc ne acc top dn).
-Proof.
-  induction ls; intros cont bc bt hnc ne acc top dn H; auto.
-  destruct dn; [rewrite !arun_done by reflexivity; reflexivity|].
-  cbn [amp_tidy_from] in H. cbn [map arun]. unfold astep, line_class.
-  cbn [k_blank k_com k_start k_hash k_ampc k_ampf k_words a_bc a_bt a_cont a_hnc a_ne a_acc a_top a_done].
-  destruct (all_space (expandtabs TABSIZE a)) eqn:Eb.
-  - apply andb_true_iff in H. destruct H as [Hc H]. apply negb_true_iff in Hc. subst cont.
-    rewrite (IHls false) by auto. reflexivity.
-  - destruct (andb (contains "#"%char (takeS BLANK_SPACE_CONTINUE (expandtabs TABSIZE a)))
-                   (negb (is_comment (expandtabs TABSIZE a)))) eqn:Eh; auto.
-    destruct (andb (is_comment (expandtabs TABSIZE a))
-                   (negb (all_space (takeS BLANK_SPACE_CONTINUE (expandtabs TABSIZE a))))) eqn:Ec.
-    + apply andb_true_iff in H. destruct H as [Hc H]. apply andb_true_iff in H. destruct H as [Hn H].
-      apply negb_true_iff in Hc. apply negb_true_iff in Hn. subst cont. rewrite Hn.
-      rewrite (IHls false) by auto. reflexivity.
-    + apply andb_true_iff in H. destruct H as [He H]. apply eqb_prop in He. rewrite He.
-      rewrite (IHls _ _ _ _ _ _ _ _ H). reflexivity.
-Qed.
-
-Theorem tidy_reads_alike : forall w f, amp_tidy w f = true -> read_lines w f = read_lines_fix w f.
-Proof.
-  intros w f H. rewrite read_lines_run, read_lines_fix_run. cbv zeta.
-  unfold amp_tidy in H. unfold s0. rewrite tidy_agree by auto. reflexivity.
-Qed.
-
-Theorem layout_equiv_partial : forall w f f', layout_equiv w f f' ->
-  amp_tidy w f = true -> amp_tidy w f' = true -> read_lines w f = read_lines w f'.
-Proof.
-  intros w f f' H T T'. rewrite !tidy_reads_alike by auto. apply layout_equiv_sound; auto.
-Qed.
-
-(* ---- the current code does not have the property: one witness per mechanism (w = 128) *)
+(* ================================================================== J  examples, is_comment *)
+(* ---- examples: single steps across which the reader before commit 2db4963 read differently (w = 128) *)
 Definition wt : string := "t" ++ lf.
 Definition mk3 (fr pre p post : list string) : list string := List.app fr (List.app pre (List.app p post)).
 
@@ -1620,22 +1557,36 @@ Proof. apply (LS_data [wt] (Some "t")); [apply front_wt|]. apply DS_comment_text
 Lemma wit4_step : layout_step wit4 wit4'.
 Proof. apply (LS_data [wt] (Some "t")); [apply front_wt|]. apply DS_dollar; try reflexivity; try constructor; dl. Qed.
 
-Definition breaks (f f' : list string) : Prop :=
-  layout_step f f' /\ within_limit 128 f = true /\ within_limit 128 f' = true /\
-  read_lines 128 f <> read_lines 128 f'.
 
-Lemma wit1_breaks : breaks wit1 wit1'.
-Proof. split; [apply wit1_step|]. repeat split; try reflexivity. intro H. vm_compute in H. discriminate H. Qed.
-Lemma wit2_breaks : breaks wit2 wit2'.
-Proof. split; [apply wit2_step|]. repeat split; try reflexivity. intro H. vm_compute in H. discriminate H. Qed.
-Lemma wit3_breaks : breaks wit3 wit3'.
-Proof. split; [apply wit3_step|]. repeat split; try reflexivity. intro H. vm_compute in H. discriminate H. Qed.
-Lemma wit4_breaks : breaks wit4 wit4'.
-Proof. split; [apply wit4_step|]. repeat split; try reflexivity. intro H. vm_compute in H. discriminate H. Qed.
-Theorem layout_refuted : exists w f f', layout_equiv w f f' /\ read_lines w f <> read_lines w f'.
+Definition same_reading (f f' : list string) : Prop :=
+  layout_equiv 128 f f' /\ read_lines 128 f = read_lines 128 f'.
+
+Lemma wit1_same : same_reading wit1 wit1'.
+Proof. split; [apply LE_step; [apply wit1_step|reflexivity|reflexivity]|reflexivity]. Qed.
+Lemma wit2_same : same_reading wit2 wit2'.
+Proof. split; [apply LE_step; [apply wit2_step|reflexivity|reflexivity]|reflexivity]. Qed.
+Lemma wit3_same : same_reading wit3 wit3'.
+Proof. split; [apply LE_step; [apply wit3_step|reflexivity|reflexivity]|reflexivity]. Qed.
+Lemma wit4_same : same_reading wit4 wit4'.
+Proof. split; [apply LE_step; [apply wit4_step|reflexivity|reflexivity]|reflexivity]. Qed.
+
+Lemma wit_values :
+  read_lines 128 wit1' = (Some "t", [(0, ["2"; "0"; "1"; "-2"; "imp:n=1"])], None) /\
+  read_lines 128 wit2' = (Some "t", [(0, ["2"; "0"; "1"; "-2"; "imp:n=1"])], None) /\
+  read_lines 128 wit3' = (Some "t", [(0, ["1"; "0"; "-1"]); (0, ["2"; "0"; "1"])], None) /\
+  read_lines 128 wit4' = (Some "t", [(0, ["1"; "0"; "-1"]); (0, ["2"; "0"; "1"])], None).
+Proof. repeat split; reflexivity. Qed.
+
+(* the '&' in the last allowed column (w = 10): the line is cut to 10 characters, its LF is lost, the '&' is seen *)
+Definition edge_a : list string := mk3 [wt] [] ["1 0 -1 2" ++ lf; blanks 5 "3" ++ lf] [].
+Definition edge_b : list string := mk3 [wt] [] ["1 0 -1 2" ++ amp2 ++ lf; blanks 0 "3" ++ lf] [].
+
+Lemma edge_same : layout_equiv 10 edge_a edge_b /\
+  read_lines 10 edge_b = (Some "t", [(0, ["1"; "0"; "-1"; "2"; "3"])], None).
 Proof.
-  exists 128, wit1, wit1'. destruct wit1_breaks as (H1 & H2 & H3 & H4). split; auto.
-  apply LE_step; auto.
+  split; [|reflexivity]. apply LE_step; try reflexivity.
+  apply (LS_data [wt] (Some "t")); [apply front_wt|].
+  apply DS_amp; try reflexivity; try constructor; try dl.
 Qed.
 
 (* is_comment is not rule S5 *)
@@ -1646,7 +1597,7 @@ Theorem is_comment_partial : forall x, all_plain x = true -> late_c x = false ->
   is_comment (x ++ lf) = spec_comment x.
 Proof. intros x H1 H2. rewrite is_comment_S5, H2, orb_false_r; auto. Qed.
 
-(* ---- non-vacuity: a pair of layouts related by three steps, both tidy, with content *)
+(* ---- non-vacuity: a pair of layouts two steps apart, with content *)
 Definition ex_a : list string := mk3 [wt] [] ["2 0 1 -2" ++ lf; blanks 5 "imp:n=1" ++ lf] ["" ++ lf; "1 px 0" ++ lf].
 Definition ex_b : list string := mk3 [wt] [] ["2 0 1 -2" ++ amp2 ++ lf; blanks 1 "imp:n=1" ++ lf] ["" ++ lf; "1 px 0" ++ lf].
 Definition ex_c : list string := mk3 [wt] ["2 0 1 -2" ++ amp2 ++ lf; blanks 1 "imp:n=1" ++ lf; "" ++ lf] ["1 px 0" ++ lf] [].
@@ -1662,9 +1613,6 @@ Proof.
     apply (LS_data [wt] (Some "t")); [apply front_wt|].
     apply DS_comment_before; try reflexivity; constructor.
 Qed.
-
-Lemma ex_tidy : amp_tidy 128 ex_a = true /\ amp_tidy 128 ex_d = true.
-Proof. split; reflexivity. Qed.
 
 Lemma ex_value : read_lines 128 ex_d
   = (Some "t", [(0, ["2"; "0"; "1"; "-2"; "imp:n=1"]); (1, ["1"; "px"; "0"])], None).
